@@ -117,6 +117,7 @@ type op struct {
 	// dereferences it, a buggy Marshaler or Stringer), at top level (1) or inside a group (2). The caller recovers. What
 	// becomes of that record is its own business (nothing, or one Write); every other record is written as if alone.
 	poison int
+	anon   bool // empty message and no attributes: no id in the line
 }
 
 type panicky struct{ why string }
@@ -225,7 +226,12 @@ func genScenario(t *rapid.T) *scenario {
 				shift := rapid.SampledFrom([]time.Duration{0, 0, time.Second, -time.Second, 999 * time.Millisecond, time.Minute, time.Hour, 24 * time.Hour}).Draw(t, "shift")
 				o.instant = base.Add(shift).In(zones[rapid.IntRange(0, 1).Draw(t, "zone")])
 			}
-			if poisoned && rapid.IntRange(0, 7).Draw(t, "poison") == 0 {
+			if o.poison == 0 && rapid.IntRange(0, 11).Draw(t, "bare") == 0 {
+				// a record that says nothing: empty message, no attributes (a heartbeat, a separator line). It carries no
+				// id; it is recognised by being byte-for-byte the line it gives when logged alone
+				o.id, o.size, o.attrs, o.anon = "", 0, nil, true
+			}
+			if !o.anon && poisoned && rapid.IntRange(0, 7).Draw(t, "poison") == 0 {
 				o.poison = rapid.IntRange(1, 2).Draw(t, "poisonWhere")
 				if !o.direct {
 					o.direct, o.instant = true, base
@@ -290,6 +296,7 @@ type outcome struct {
 	writes       int
 
 	poisonWritten int
+	anon          int
 }
 
 func runScenario(sc *scenario) (string, outcome) {
@@ -337,8 +344,17 @@ func runScenario(sc *scenario) (string, outcome) {
 	}
 	byID := map[string]op{}
 	enabled, enabledPoisoned := 0, 0
+	anonLines := map[string]int{} // expected lines of the enabled records without an id, with multiplicity
 	for _, s := range sc.scripts {
 		for _, o := range s {
+			if o.anon {
+				if o.level >= sc.threshold {
+					enabled++
+					anonLines[string(sc.alone(o))]++
+					oc.anon++
+				}
+				continue
+			}
 			byID[o.id] = o
 			if o.level >= sc.threshold {
 				if o.poison > 0 {
@@ -358,6 +374,18 @@ func runScenario(sc *scenario) (string, outcome) {
 	switches := 0
 	for _, w := range mon.writes {
 		ids := idRe.FindAllString(string(w), -1)
+		if len(ids) == 0 && len(anonLines) > 0 {
+			// one of the records that carry no id: as written (own time) or with the time masked
+			if k := string(w); anonLines[k] > 0 {
+				anonLines[k]--
+				continue
+			}
+			if k := string(lm.MaskTime(sc.kind, w)); anonLines[k] > 0 {
+				anonLines[k]--
+				continue
+			}
+			return fmt.Sprintf("a Write payload carries no record id and is none of the lines that the records without message and attributes give when logged alone: %q", clip(w)), oc
+		}
 		if len(ids) != 1 {
 			return fmt.Sprintf("a Write payload carries %d record ids %v, want exactly one: %q", len(ids), ids, clip(w)), oc
 		}
@@ -399,6 +427,11 @@ func runScenario(sc *scenario) (string, outcome) {
 			oc.bigLine = true
 		}
 	}
+	for line, n := range anonLines {
+		if n > 0 {
+			return fmt.Sprintf("%d record(s) with an empty message and no attributes at an enabled level were never written (logged alone each gives %q)", n, clip([]byte(line))), oc
+		}
+	}
 	for id, o := range byID {
 		if o.poison == 0 && o.level >= sc.threshold && !seen[id] {
 			return fmt.Sprintf("record %s was never written", id), oc
@@ -427,6 +460,9 @@ func TestScenarios(t *testing.T) {
 		}
 		if oc.ownTime {
 			ev.Label("observed:records_with_a_time_of_their_own_(Handler.Handle)")
+		}
+		if oc.anon > 0 {
+			ev.Label("records_with_empty_message_and_no_attributes")
 		}
 		if sc.poisoned {
 			ev.Label("some_values_panic_while_rendered_(caller_recovers)")
